@@ -453,6 +453,14 @@ def rule_callbacks(repo, col):
                       % (unparse(cond.test, 60) if cond is not None else ''))
     col.soft(k >= 2, rule, TABLE, 'Table.merge', 'instances', fn,
              '%d callback calls' % k, 'callback calls not found')
+    for cb in ('sample_metadata_f', 'observation_metadata_f'):
+        called = any(isinstance(n, ast.Call) and isinstance(
+            n.func, ast.Name) and n.func.id == cb for n in ast.walk(fn))
+        col.check(called, rule, TABLE, 'Table.merge', 'called:%s' % cb, fn,
+                  'the callback is invoked',
+                  '`%s` is accepted but never called (the general path '
+                  'uses something else for that axis): a custom metadata '
+                  'function is silently ignored' % cb)
     fn = repo.func(TABLE, 'Table.transform')
     direct = [n for n in body_walk(fn) if isinstance(n, ast.Call) and
               isinstance(n.func, ast.Name) and n.func.id == 'f']
@@ -834,3 +842,54 @@ RULE_TEXT.setdefault('OR-COPERM', ' '.join(
     rule_dup_test_on_result.__doc__.split()))
 RULE_TEXT.setdefault('SB-TSVPATHS', ' '.join(
     rule_convert_single_write.__doc__.split()))
+
+
+def rule_kernels_see_sorted(repo, col, which=('transform', 'subsample')):
+    """OR-SORTED (order-sensitive kernels): the value arrays handed to the
+    transform kernel (whose user function may depend on the order of the
+    values it gets) and to the subsampling kernels (whose draws are mapped
+    back to entries in storage order) are in index order: `sort_indices()`
+    on the matrix dominates the kernel call.  Otherwise tables with equal
+    content but another internal layout (unsorted indices left behind by a
+    reorder) give different results, and the same seed does not reproduce a
+    subsample after a read accessor has re-sorted the layout."""
+    rule = 'OR-SORTED'
+    KERN = {'transform': ('Table.transform', '_transform'),
+            'subsample': ('Table.subsample', 'subsample')}
+    for key in which:
+        q, kname = KERN[key]
+        fn = repo.func(TABLE, q)
+        cfg = CFG(fn)
+        kcalls = [n for n in cfg.stmt_nodes() if n.kind == 'stmt' and any(
+            isinstance(c, ast.Call) and call_name(c) == kname
+            for c in ast.walk(n.stmt))]
+        if not kcalls:
+            col.unknown(rule, TABLE, q, 'sorted-before-kernel', fn,
+                        'kernel call not found')
+            continue
+        for kc in kcalls:
+            arr = None
+            for c in ast.walk(kc.stmt):
+                if isinstance(c, ast.Call) and call_name(c) == kname and \
+                        c.args:
+                    arr = dotted(c.args[0])
+            sorters = [n for n in cfg.stmt_nodes() if n.kind == 'stmt' and
+                       any(isinstance(c, ast.Call) and isinstance(
+                           c.func, ast.Attribute) and c.func.attr in (
+                           'sort_indices', 'sorted_indices') and (
+                           arr is None or dotted(c.func.value) == arr or
+                           (dotted(c.func.value) or '').endswith('._data'))
+                           for c in ast.walk(n.stmt))]
+            ok = any(cfg.dominates(s_, kc) for s_ in sorters)
+            col.check(ok, rule, TABLE, q, 'sorted-before-kernel', kc.stmt,
+                      'sort_indices() on the matrix dominates the kernel '
+                      'call', 'no sort_indices()/sorted_indices() on the '
+                      'matrix precedes the %s kernel on every path: after a '
+                      'reorder the stored values are not in index order, so '
+                      'equal tables give different results%s'
+                      % (kname, ' and a seed does not reproduce a draw once '
+                         'a read has re-sorted the layout'
+                         if key == 'subsample' else ''))
+
+
+RULE_TEXT['OR-SORTED'] = ' '.join(rule_kernels_see_sorted.__doc__.split())
